@@ -88,3 +88,33 @@ Theorem C11_nsi_kernels_are_model :
   gen_nsi_cross_kernels_are_model = true /\ gen_cross_kernels_skeleton = true.
 Proof. exact (conj gen_nsi_kernels gen_skeleton). Qed.
 Print Assumptions C11_nsi_kernels_are_model.
+
+(* ---- ... and what those statements compute are the terms
+        nsi_cross_transitivity / nsi_cross_local_clustering of
+        Model/Measures.v, the terms C02 / C04 prove invariant: symmetric
+        reflexive A+, duplicate-free node lists inside the node range ---- *)
+From PV.Model Require NsiLang Measures NsiKernels.
+From PV.Proofs Require NsiKernels.
+
+Theorem C11_nsi_cross_transitivity_kernel (G : NsiLang.graph) l1 l2 :
+  (forall a b, NsiLang.ap G a b = NsiLang.ap G b a) -> (forall a, NsiLang.ap G a a = true) ->
+  NoDup l1 -> NoDup l2 ->
+  (forall x, In x l1 -> (x < NsiLang.gn G)%nat) -> (forall x, In x l2 -> (x < NsiLang.gn G)%nat) ->
+  (forall u, NsiLang.grp G 0 u = PV.Proofs.NsiKernels.mem l1 u) ->
+  (forall u, NsiLang.grp G 1 u = PV.Proofs.NsiKernels.mem l2 u) ->
+  PV.Model.NsiKernels.k_nsi_cross_transitivity (NsiLang.ap G) (NsiLang.gw G) l1 l2 =
+  NsiLang.eval G [] Measures.nsi_cross_transitivity.
+Proof. exact (PV.Proofs.NsiKernels.nsi_cross_transitivity_kernel_is_term G l1 l2). Qed.
+Print Assumptions C11_nsi_cross_transitivity_kernel.
+
+Theorem C11_nsi_cross_local_clustering_kernel (G : NsiLang.graph) l2 v :
+  (forall a b, NsiLang.ap G a b = NsiLang.ap G b a) -> (forall a, NsiLang.ap G a a = true) ->
+  NoDup l2 -> (forall x, In x l2 -> (x < NsiLang.gn G)%nat) ->
+  (forall u, NsiLang.grp G 1 u = PV.Proofs.NsiKernels.mem l2 u) ->
+  PV.Model.NsiKernels.k_nsi_cross_local_clustering (NsiLang.ap G) (NsiLang.gw G) l2 v =
+  NsiLang.eval G [v] Measures.nsi_cross_local_clustering.
+Proof.
+  intros S R N I M.
+  exact (PV.Proofs.NsiKernels.nsi_cross_local_clustering_kernel_is_term G l2 S R N I M v).
+Qed.
+Print Assumptions C11_nsi_cross_local_clustering_kernel.
